@@ -51,12 +51,23 @@ class C16(object):
             '(holder data, history); non-trivial = >= 2 reads of which one with suppression or mutation')
     assumptions = ['series are non-empty when time-zero suppression is on', 'cutoffs are non-negative']
     required_counters = ('get.judged', 'get.series_with_tiny_magnitudes', 'other_holder_built_between_reads', 'get.no_cutoff_series_longer_than_model_horizon', 'get.suppressed', 'get.mutated_return', 'csv.judged', 'csv.default_format', 'basesolver.judged', 'get_missing.judged',
-                         'insitu.gettimeseries.post_evaluated')
+                         'insitu.gettimeseries.post_evaluated',
+                         'series_stored_by_the_user_between_renderings')
 
     def n_cases(self, tier):
         return (120 if tier == 'quick' else 12000) + 1
 
     def make_case(self, rng, idx, tier):
+        case = self._make_case(rng, idx, tier)
+        if idx % 8 == 5 and case.get('history') is not None:
+            # between two renderings the USER stores a derived series of his own whose name sorts ahead of the others: the
+            # renderings made before must not decide where it appears
+            case['history'] += [{'op': 'csv', 'fmt': '%.5g'}, {'op': 'holder_csv', 'group': 'main', 'fmt': None},
+                                {'op': 'store_derived', 'name': 'AAA_user'}, {'op': 'csv', 'fmt': '%.5g'},
+                                {'op': 'store_derived', 'name': 'a_0_user'}, {'op': 'holder_csv', 'group': 'main', 'fmt': '%r'}]
+        return case
+
+    def _make_case(self, rng, idx, tier):
         if idx == 0:
             return {'kind': 'ambient', 'models': ['SIM', 'PC'] if tier == 'quick' else ['SIM', 'SIMEX1', 'PC', 'REG'],
                     'scripts': 'fast' if tier == 'quick' else 'all'}
@@ -133,6 +144,13 @@ class C16(object):
                 continue
             if op['op'] == 'set_suppress':
                 mod.TimeSeriesSupressTimeZero = op['value']
+                continue
+            if op['op'] == 'store_derived':
+                # a write by the user, not a read: the memo of earlier renderings no longer applies
+                ln_ = min([len(v) for v in solver.TimeSeries.values()] or [1])
+                solver.TimeSeries[op['name']] = [0.5 * i_ + 1.0 for i_ in range(ln_)]
+                rendered.clear()
+                rec.count('series_stored_by_the_user_between_renderings')
                 continue
             if op['op'] == 'other_holder':
                 names = sorted(snap['main'].keys())
